@@ -164,6 +164,9 @@ def _make_reenter(reals, res):
     return reenter
 
 
+_SUB = {}                   # dictable class -> the user's subclass of it
+SAME_CLASS = ('slice', 'mask', 'take', 'project', 'derive', 'rename', 'do', 'minus', 'copy', 'inc', 'exc', 'inc_fn', 'inc_all', 'inc_dict',
+              'add_record', 'add_records', 'add_zero')
 LEAKS = []                  # keyword arguments a **kw formula was handed that are not columns of its table
 HELD = []                   # half-consumed row iterators somebody keeps alive
 
@@ -202,6 +205,7 @@ def generate(st):
         'faulty': sw.random() < 0.6,
         'off': sorted(sw.sample(OPS[4:35], sw.randint(0, 8))),
         'reenter': sw.random() < 0.3,          # user functions called back by the library use the library themselves
+        'subclass': sw.random() < 0.25,        # some tables are instances of the user's own subclass of dictable
         'locality': sw.choice([0.0, 0.0, 0.4, 0.7]),     # probability that an operation works on the same table as the one before
     }
     _LAST[0] = None
@@ -256,6 +260,8 @@ def generate(st):
         op = _gen_op(o, g, f, cfg, cells, cols, models, rows_n, cell, spec_for)
         if op is None:
             continue
+        if op['op'] in ('new_records', 'new_columns', 'new_rows') and cfg.get('subclass') and g.random() < 0.5:
+            op['sub'] = True
         if op['op'] in ('setitem', 'setitem_from', 'update', 'update_from', 'delitem') and g.random() < 0.08:
             op['hold_first'] = g.choice([1, 1, 2])   # somebody starts reading the table row by row, stops half-way and keeps the iterator
         if cfg.get('reenter') and op['op'] in ('do', 'derive', 'inc_fn', 'apply') and g.random() < 0.5:
@@ -1261,6 +1267,9 @@ def execute(trace, ctx=None):
                     if same_as:
                         raise Violation('result-is-operand', '%s returned its operand table#%d itself instead of a new table' % (_short(op), same_as[0]), k)
                     item = [out[1], val]
+                    if op['op'] in SAME_CLASS and isinstance(op.get('t'), int) and 0 <= op['t'] < len(reals) and type(val) is not type(reals[op['t']]):
+                        # a table of the user's own table class stays one through every selection and transformation
+                        raise Violation('result-class', '%s on a %s returned a %s' % (_short(op), type(reals[op['t']]).__name__, type(val).__name__), k)
                     if op['op'] == 'project' and len(set(op['cols'])) == len(op['cols']) and list(dict.keys(val)) != list(op['cols']):
                         # the model's records are {c: row[c] for c in requested}: positional renaming of the projection relies on it
                         raise Violation('projection-column-order', '%s: columns come back as %s' % (_short(op), list(dict.keys(val))), k)
@@ -1353,6 +1362,8 @@ def real_apply(op, reals, dictable):
     o = op['op']
     if o == 'new_empty':
         return dictable()
+    if op.get('sub') and o in ('new_records', 'new_columns', 'new_rows'):
+        dictable = _SUB.setdefault(dictable, type('SimTable', (dictable,), {}))      # the user's own table class (nothing overridden)
     if o == 'new_records':
         return dictable([{c: dec(v) for c, v in r} for r in op['records']])
     if o in ('new_columns', 'new_reject'):
@@ -1536,7 +1547,7 @@ def shrink_candidates(trace):
             if isinstance(v, list) and len(v) > 1:
                 for j in range(len(v)):
                     t = _copy.deepcopy(trace); del t['ops'][k][key][j]; yield t
-        if 'val' in op and 'list' in op['val'] and len(op['val']['list']) > 1:
+        if isinstance(op.get('val'), dict) and 'list' in op['val'] and len(op['val']['list']) > 1:
             t = _copy.deepcopy(trace); t['ops'][k]['val'] = {'scalar': op['val']['list'][0]}; yield t
         if op['op'] == 'new_records':
             for i, r in enumerate(op['records']):
